@@ -373,6 +373,30 @@ func (e *SpecEnv) ident(name string) Value {
 			return e.object(o)
 		}
 	}
+	// a postcondition may mention a named local of the function: its value at the return
+	// (on paths where the variable was never declared the consequent is undefined)
+	if e.witFr != nil && e.fr == nil && !e.entry {
+		for f := e.witFr; f != nil; f = f.parent {
+			if pv, ok := f.vars[name]; ok {
+				if pv.K == KPtr && pv.B == BCell {
+					if _, alive := e.st.cells[pv.Cell]; !alive {
+						specFail("local-at-exit %s is not declared on this path", name)
+					}
+				}
+				return x.load(e.st, pv, token.NoPos)
+			}
+			if f.fn.Parent() == nil {
+				break
+			}
+		}
+		for _, b := range e.witFr.fn.Blocks {
+			for _, ins := range b.Instrs {
+				if a, ok := ins.(*ssa.Alloc); ok && a.Comment == name {
+					specFail("local-at-exit %s is not declared on this path", name)
+				}
+			}
+		}
+	}
 	specFail("unknown identifier %q", name)
 	return Value{}
 }
@@ -560,7 +584,7 @@ func (e *SpecEnv) binary(n *SBin) Value {
 		cons := func() (s string) {
 			defer func() {
 				if r := recover(); r != nil {
-					if se, ok := r.(*SpecError); ok && strings.Contains(se.Msg, "dynamic value") && x.underBinder == 0 {
+					if se, ok := r.(*SpecError); ok && (strings.Contains(se.Msg, "dynamic value") || strings.Contains(se.Msg, "is not live in this state") || strings.Contains(se.Msg, "local-at-exit")) && x.underBinder == 0 {
 						s = x.d.fresh("undef", sBool)
 						return
 					}
@@ -1038,6 +1062,30 @@ func (e *SpecEnv) applySpec(sf *SpecFunc, argEx []SExpr) Value {
 			wf = e.fr
 		}
 		env := &SpecEnv{x: x, st: e.st, old: e.old, pre: e.pre, names: map[string]Value{}, pkg: e.pkg, fr: nil, witFr: wf, inWitness: e.inWitness}
+		// large integer arguments are bound by an SMT let instead of being copied into
+		// every occurrence of the parameter in the body
+		var lets []string
+		bound := make([]Value, len(args))
+		copy(bound, args)
+		for i := range bound {
+			if bound[i].K == KInt && len(bound[i].S) > 60 && strings.Contains(bound[i].S, "(") {
+				x.d.n++
+				ln := fmt.Sprintf("a!l%d", x.d.n)
+				lets = append(lets, "("+ln+" "+bound[i].S+")")
+				bound[i].S = ln
+			}
+		}
+		for i, p := range sf.Params {
+			env.names[p.Name] = bound[i]
+		}
+		r := env.eval(sf.Body)
+		if len(lets) == 0 {
+			return r
+		}
+		if (r.K == KInt || r.K == KBool || r.K == KBV8) && r.S != "" {
+			r.S = "(let (" + strings.Join(lets, " ") + ") " + r.S + ")"
+			return r
+		}
 		for i, p := range sf.Params {
 			env.names[p.Name] = args[i]
 		}
